@@ -8,19 +8,32 @@ FLAGS = ["-O1", "-g", "-D_GLIBCXX_ASSERTIONS"]
 def run(ctx):
     ctx.rule = ("explicit-state BFS to fixpoint over store/process/set_capacity(c) histories on the real "
                 "BacktraceStorage (state = history replayed on a fresh object, canonical key = capacity, "
-                "_index, rank pattern of stored ids and of the reference deque); distinct = canonical states")
+                "_index, rank pattern of stored ids and of the reference deque); distinct = canonical states; end to end: every history up to the depth bound over "
+                "{LOG_BACKTRACE, LOG_INFO, LOG_ERROR, LOG_DYNAMIC(Info|Critical), flush_backtrace, init_backtrace(0|1|2+Error|3)} on "
+                "logger 1 and {LOG_BACKTRACE, LOG_ERROR, flush_backtrace} on logger 2 through the real macros and backend")
     exe = vf.build("c18_ring", ["engines/seqx/c18_ring.cpp"], FLAGS)
     max_cap = 4 if ctx.tier == "quick" else 7
     rr = vf.run(exe, ["--max-cap", max_cap, "--max-depth", 200], timeout=600)
     ctx.absorb(rr, "c18_ring")
+    exe2 = vf.build("c18_e2e", ["engines/seqx/c18_e2e.cpp"], FLAGS)
+    depth = 5 if ctx.tier == "quick" else 6
+    nsh = 16
+    for rr in vf.run_many([(exe2, ["--depth", depth, "--shard", s, "--nshards", nsh], 1700) for s in range(nsh)]):
+        ctx.absorb(rr, "c18_e2e")
     ctx.distinct.update(range(ctx.stats.get("states", 0)))
     ctx.assumptions.append("ring level: ids are opaque to BacktraceStorage (moved, never compared), so rank-pattern canonicalisation is exact")
     ctx.assumptions.append("re-initialisation with a different capacity forgets stored statements; with the same capacity it keeps them (as set_capacity is written)")
 
 
+def prebuild():
+    vf.build("c18_ring", ["engines/seqx/c18_ring.cpp"], FLAGS)
+    vf.build("c18_e2e", ["engines/seqx/c18_e2e.cpp"], FLAGS)
+
+
 def replay(rep, extra):
-    exe = vf.build("c18_ring", ["engines/seqx/c18_ring.cpp"], FLAGS)
     rec = rep["record"]
+    exe = vf.build("c18_ring" if rec.get("ring", True) else "c18_e2e",
+                   ["engines/seqx/c18_ring.cpp" if rec.get("ring", True) else "engines/seqx/c18_e2e.cpp"], FLAGS)
     outs = []
     for _ in range(2):
         rr = vf.run(exe, ["--replay", rec["case"]], timeout=60)
